@@ -229,6 +229,11 @@ def run(ctx):
         ctx.check(not bad and rows >= 1, "R05.2", "%s|returns-removed-id" % f.name,
                   "the store removal reports the key id of the entry it removed (None when nothing was removed)", f.where(bb), "; ".join(bad[:2]))
 
+    # R05.8 (= C04 R04.1) the soft-delete mark is applied by key: it must be in place before its own Delete command can run,
+    # else it can land on a later incarnation of the key that no Delete is queued for - unreadable, never removed, charged
+    for o in ctx.own_of("c04"):
+        if o["rule"] == "R04.1" and "hide-dominates-queueing" in o["key"]:
+            ctx._add(o["status"], "R05.8", o["key"].split("|", 1)[1], o["desc"] + " [a mark that lands after its Delete ran hides a newer incarnation for good, weight charged]", o["where"], o["detail"])
     # R05.6 release of an id and by-key removal of its entry are atomic w.r.t. admission (shared with C10 R10.5 / C03 R03.4)
     import c10
     c10.id_guard(ctx, M, "R05.6")
